@@ -70,7 +70,8 @@ class UnitValueValidator:
 
             validation_issues += self._check_value_class(original_tag, stripped_value, report_as, error_code,
                                                          index_offset)
-            if not unit:
+            # Text left between the number and a recognised unit is bad unit text as well
+            if not unit or bad_units:
                 validation_issues += self._check_units(original_tag, bad_units, report_as)
 
             # We don't want to give this overall error twice
